@@ -30,7 +30,25 @@ var (
 	verifHostIP   = verifIP(9)
 	verifRouterIP = verifIP(1)
 	verifDNS      = verifIP(1)
+	// prefix configuration (verifNetConfig): home /28 + netfilter /29 by default
+	verifHomeBits, verifNFBits = 28, 29
+	verifSample                = byte(15) // lease / squatter addresses are drawn from 192.168.0.(x & verifSample)
 )
+
+// verifNetConfig selects the home / netfilter prefix configuration.
+//   0: home 192.168.0.0/28, host .9, netfilter 192.168.0.8/29
+//   1: home 192.168.0.0/27, host .17, netfilter 192.168.0.16/28
+//   2: home 192.168.0.0/28, host .2, netfilter 192.168.0.0/30 (netfilter subnet at the start of the home LAN, router inside it)
+func verifNetConfig(cfg int) {
+	switch cfg {
+	case 1:
+		verifHostIP, verifHomeBits, verifNFBits, verifSample = verifIP(17), 27, 28, 31
+	case 2:
+		verifHostIP, verifHomeBits, verifNFBits, verifSample = verifIP(2), 28, 30, 15
+	}
+}
+
+func verifMaskByte(bits int) byte { return byte(0xff << uint(32-bits)) }
 
 // Deliberately small address pools: home LAN 192.168.0.0/28 (router .1, host .9), netfilter LAN 192.168.0.8/29
 // with our host as gateway, so that cursor wrap-around and exhaustion are inside the bound.
@@ -38,7 +56,7 @@ func verifDHCPSetup(mode Mode) (*Handler, *packet.Session, *verifConn, []byte) {
 	hostMAC, routerMAC := verifBytes(6), verifBytes(6)
 	verifAssume(hostMAC[0]&1 == 0 && routerMAC[0]&1 == 0 && verifMACDiff(hostMAC, routerMAC) != 0)
 	nic := &packet.NICInfo{
-		HomeLAN4:    netip.PrefixFrom(verifIP(0), 28),
+		HomeLAN4:    netip.PrefixFrom(verifIP(0), verifHomeBits),
 		HostAddr4:   packet.Addr{MAC: net.HardwareAddr(hostMAC), IP: verifHostIP},
 		RouterAddr4: packet.Addr{MAC: net.HardwareAddr(routerMAC), IP: verifRouterIP},
 	}
@@ -46,7 +64,7 @@ func verifDHCPSetup(mode Mode) (*Handler, *packet.Session, *verifConn, []byte) {
 	s, err := packet.Config{Conn: conn, NICInfo: nic}.NewSession("")
 	verifAssert(err == nil, "session-created")
 	verifDropGoroutines()
-	h, err := Config{Mode: mode, NetfilterIP: netip.PrefixFrom(verifHostIP, 29), DNSServer: verifDNS, LeaseFilename: ""}.New(s)
+	h, err := Config{Mode: mode, NetfilterIP: netip.PrefixFrom(verifHostIP, verifNFBits), DNSServer: verifDNS, LeaseFilename: ""}.New(s)
 	verifAssert(err == nil && h != nil, "handler-created")
 	nextAttack = verifTime(int64(1)<<61 - 1) // the DHCP-server attack burst is not part of this property
 	verifClockRange(verifNowNS, verifNowNS+int64(10*time.Second))
@@ -93,13 +111,13 @@ func verifLeases(h *Handler, k int, sel int) []verifLeaseRec {
 			l.State = StateFree
 		case 1:
 			l.State = StateDiscover
-			l.IPOffer = verifIP(verifU8() & 15)
+			l.IPOffer = verifIP(verifU8() & verifSample)
 			verifAssume(!verifReserved(h, l.subnet, l.IPOffer))
 			l.XID = verifBytes(4)
 			r.offer, r.xid = l.IPOffer, l.XID
 		case 2:
 			l.State = StateAllocated
-			l.Addr.IP = verifIP(verifU8() & 15)
+			l.Addr.IP = verifIP(verifU8() & verifSample)
 			verifAssume(!verifReserved(h, l.subnet, l.Addr.IP))
 			for _, o := range recs {
 				if o.state == StateAllocated {
@@ -199,7 +217,8 @@ func verifRequestFrame(variant int) verifReq {
 	if srvAt >= 0 { // server identifier: ours, the router's, or another address of the LAN
 		switch verifChoose(3) {
 		case 0:
-			d[240+srvAt], d[240+srvAt+1], d[240+srvAt+2], d[240+srvAt+3] = 192, 168, 0, 9
+			our := verifHostIP.As4()
+			d[240+srvAt], d[240+srvAt+1], d[240+srvAt+2], d[240+srvAt+3] = our[0], our[1], our[2], our[3]
 		case 1:
 			d[240+srvAt], d[240+srvAt+1], d[240+srvAt+2], d[240+srvAt+3] = 192, 168, 0, 1
 		default:
@@ -280,7 +299,15 @@ func verifDecodeReply(f []byte, hostMAC []byte) (r verifReply) {
 
 // VerifC11Step: one client message processed by the real handler from an arbitrary invariant lease table.
 // mode: 1 primary, 2 secondary, 3 nice.  variant: see verifRequestFrame.  nleases: size of the pre-state table.
-func VerifC11Step(mode int, variant int, nleases int) {
+func VerifC11Step(mode int, variant int, nleases int) { verifC11Step(mode, variant, nleases) }
+
+// VerifC11StepCfg: the same step under another home / netfilter prefix configuration (see verifNetConfig).
+func VerifC11StepCfg(mode int, variant int, nleases int, cfg int) {
+	verifNetConfig(cfg)
+	verifC11Step(mode, variant, nleases)
+}
+
+func verifC11Step(mode int, variant int, nleases int) {
 	h, s, conn, hostMAC := verifDHCPSetup(Mode(mode))
 	nsel := 4
 	for i := 0; i < nleases; i++ {
@@ -298,7 +325,7 @@ func VerifC11Step(mode int, variant int, nleases int) {
 	}
 	// an address the session tracks for some other MAC
 	otherMAC := verifBytes(6)
-	otherIP := verifIP(verifU8() & 15)
+	otherIP := verifIP(verifU8() & verifSample)
 	trackOther := sel&2 == 2
 	if trackOther {
 		verifAssume(otherMAC[0]&1 == 0 && verifMACDiff(otherMAC, hostMAC) != 0 && otherIP != verifHostIP && otherIP != verifRouterIP)
@@ -376,10 +403,10 @@ func VerifC11Step(mode int, variant int, nleases int) {
 		o := r.d[240:]
 		p54, p1, p3, p6, p51 := verifOpt(o, 54), verifOpt(o, 1), verifOpt(o, 3), verifOpt(o, 6), verifOpt(o, 51)
 		verifAssert(p54 >= 0 && o[p54+1] == 4 && verifAddr4(o, p54+2) == verifHostIP, "C12:server-identifier-is-our-address")
-		mask := byte(0xf0)
+		mask := verifMaskByte(verifHomeBits)
 		gw, dns := verifRouterIP, verifDNS
 		if captured {
-			mask, gw, dns = 0xf8, verifHostIP, packet.DNSv4CloudFlareFamily1
+			mask, gw, dns = verifMaskByte(verifNFBits), verifHostIP, packet.DNSv4CloudFlareFamily1
 		}
 		verifAssert(p1 >= 0 && o[p1+1] == 4 && o[p1+2] == 255 && o[p1+3] == 255 && o[p1+4] == 255 && o[p1+5] == mask, "C12:subnet-mask-of-the-capture-state")
 		verifAssert(p3 >= 0 && o[p3+1] == 4 && verifAddr4(o, p3+2) == gw, "C12:router-of-the-capture-state")
